@@ -4,12 +4,18 @@
 //! all worker threads) and again with the parse cache off, pruning off, both off (thread-local
 //! `cfg(sqruff_verif)` switches), on a fresh dialect instance, and a second time on the shared instance;
 //! the serialised trees must be identical.  A separate phase parses the same inputs concurrently on
-//! several threads that share one dialect instance.
+//! several threads that share one dialect instance.  Every fixture is also parsed under every other
+//! dialect (cache off / pruning off).  Big inputs (generated shapes beyond 2^16 tokens and memo
+//! locations; slice-length straddles: inputs in which two slices that one matcher answers differently
+//! on are exactly 2^16 tokens apart) are parsed cache on vs off, each parse on its own thread.
+//! Monitors: every cache hit against a recomputation; every location key against the
+//! (token, slice length) it stands for.
 //! Correspondence: `longest_match` calls recorded through the `verif_lm` recorder are replayed on the
 //! Gallina model (Cache/Model.v): evaluated options, cache hits, chosen option.
 //! Static part: the cache keys of all nodes that can be options of `longest_match` (set K) are written
 //! to coq/gen/Keys_<d>.v where `keys_inj_b` is evaluated by vm_compute.
 use std::collections::{BTreeMap, BTreeSet, HashMap};
+use std::fmt::Write as _;
 use std::hash::{Hash, Hasher};
 use std::sync::Arc;
 
@@ -185,11 +191,42 @@ struct Shared {
     dialects: HashMap<String, Arc<Dialect>>,
 }
 
-// ---- watchdog: a parse that does not come back is itself a difference (the baseline did)
-static WATCH: std::sync::Mutex<Option<HashMap<std::thread::ThreadId, (std::time::Instant, Value)>>> = std::sync::Mutex::new(None);
+// ---- watchdog: a parse that does not come back is itself a difference (the baseline did).
+// The limit is CPU time of the parsing thread (the machine may be shared: a big input that needs
+// 40 s of CPU can take minutes of wall time), with "asleep and no CPU for a minute" (blocked for
+// good) and 10 x the limit of wall time as the other two ways to give up.
+struct Watch {
+    start: std::time::Instant,
+    task: Option<String>,
+    start_ticks: u64,
+    last_ticks: u64,
+    last_progress: std::time::Instant,
+    v: Value,
+}
+static WATCH: std::sync::Mutex<Option<HashMap<std::thread::ThreadId, Watch>>> = std::sync::Mutex::new(None);
+thread_local! {
+    static TASK_DIR: Option<String> = std::fs::read_link("/proc/thread-self").ok().map(|p| format!("/proc/{}", p.display()));
+}
+/// (state, utime + stime in clock ticks) of a thread of this process
+fn task_stat(dir: &str) -> Option<(char, u64)> {
+    let s = std::fs::read_to_string(format!("{}/stat", dir)).ok()?;
+    let rest = &s[s.rfind(')')? + 1..];
+    let f: Vec<&str> = rest.split_whitespace().collect();
+    let state = f.first()?.chars().next()?;
+    let ut: u64 = f.get(11)?.parse().ok()?;
+    let st: u64 = f.get(12)?.parse().ok()?;
+    Some((state, ut + st))
+}
+const TICKS_PER_S: u64 = 100;
 fn watch_set(v: Value) {
+    if WATCH.lock().unwrap().is_none() {
+        return;
+    }
+    let task = TASK_DIR.with(|t| t.clone());
+    let ticks = task.as_deref().and_then(task_stat).map(|x| x.1).unwrap_or(0);
+    let now = std::time::Instant::now();
     if let Some(m) = WATCH.lock().unwrap().as_mut() {
-        m.insert(std::thread::current().id(), (std::time::Instant::now(), v));
+        m.insert(std::thread::current().id(), Watch { start: now, task, start_ticks: ticks, last_ticks: ticks, last_progress: now, v });
     }
 }
 fn watch_clear() {
@@ -202,12 +239,43 @@ fn watchdog(out_path: std::path::PathBuf, limit_s: u64) {
     std::thread::spawn(move || {
         loop {
             std::thread::sleep(std::time::Duration::from_secs(2));
-            let stuck: Option<Value> = WATCH.lock().unwrap().as_ref().and_then(|m| m.values().find(|(t, _)| t.elapsed().as_secs() > limit_s).map(|(_, v)| v.clone()));
-            if let Some(v) = stuck {
+            let mut stuck: Option<(u64, Value, String)> = None;
+            if let Some(m) = WATCH.lock().unwrap().as_mut() {
+                let now = std::time::Instant::now();
+                for w in m.values_mut() {
+                    let mut asleep = false;
+                    match w.task.as_deref().and_then(task_stat) {
+                        Some((st, ticks)) => {
+                            if ticks != w.last_ticks || st != 'S' {
+                                w.last_ticks = ticks;
+                                w.last_progress = now;
+                            }
+                            asleep = st == 'S';
+                        }
+                        None => w.last_progress = now,
+                    }
+                    let cpu_s = (w.last_ticks - w.start_ticks) / TICKS_PER_S;
+                    let why = if cpu_s > limit_s {
+                        Some(format!("parse did not finish within {} s of CPU time", limit_s))
+                    } else if asleep && now.duration_since(w.last_progress).as_secs() > 60 {
+                        Some("the parsing thread sleeps and has used no CPU for 60 s (blocked for good)".to_string())
+                    } else if w.start.elapsed().as_secs() > 10 * limit_s {
+                        Some(format!("parse did not finish within {} s of wall time ({} s of CPU)", 10 * limit_s, cpu_s))
+                    } else {
+                        None
+                    };
+                    if let Some(why) = why {
+                        if stuck.as_ref().map(|s| cpu_s > s.0).unwrap_or(true) {
+                            stuck = Some((cpu_s, w.v.clone(), why));
+                        }
+                    }
+                }
+            }
+            if let Some((_, v, why)) = stuck {
                 use std::io::Write;
                 let key = format!("hang:{}:{}:{:016x}", v["variant"].as_str().unwrap_or("?"), v["dialect"].as_str().unwrap_or("?"), h64(v["sql"].as_str().unwrap_or("")));
                 let mut f = std::fs::OpenOptions::new().create(true).write(true).truncate(true).open(&out_path).unwrap();
-                let _ = writeln!(f, "{}", json!({"t":"direct_fail","cls":"watchdog","key":key,"msg":format!("parse did not finish within {} s (the harness stopped here; other inputs were not run)", limit_s),"input":v}));
+                let _ = writeln!(f, "{}", json!({"t":"direct_fail","cls":"watchdog","key":key,"msg":format!("{} (the harness stopped here; other inputs were not run)", why),"input":v}));
                 let _ = writeln!(f, "{}", json!({"t":"counts","v":{},"direct_by_class":{"watchdog":1}}));
                 let _ = writeln!(f, "{}", json!({"t":"done","cases":0,"direct":1,"direct_fail":1}));
                 let _ = f.flush();
@@ -265,6 +333,454 @@ fn run_item(sh: &Shared, it: &Item, buf: &mut Buf) {
         inp["observed"] = json!(o);
         buf.direct(&format!("{}:{}", it.cls, v), same, &key, &format!("parse result with {} differs from the baseline (shortcuts on, shared dialect)", v), inp);
     }
+}
+
+/// Cache on vs cache off vs pruning off on the shared dialect (no fresh dialect instance: cheap
+/// enough for every fixture under every dialect).
+fn run_item_light(sh: &Shared, it: &Item, buf: &mut Buf) {
+    let shared = &sh.dialects[&it.dialect];
+    verif_switches::set(false, false);
+    let base = watched_parse(shared, it, "baseline");
+    verif_switches::set(true, false);
+    let off = watched_parse(shared, it, "cache-off");
+    verif_switches::set(false, true);
+    let noprune = watched_parse(shared, it, "prune-off");
+    verif_switches::set(false, false);
+    buf.count(&format!("inputs_{}", it.cls), 1);
+    if base.starts_with("tree:") && it.sql.split_whitespace().count() >= 4 {
+        buf.count("nontrivial_inputs", 1);
+    }
+    for (v, o) in [("cache-off", off), ("prune-off", noprune)] {
+        let same = o == base;
+        if !same && (o.starts_with("abort-dangling:") || base.starts_with("abort-dangling:")) {
+            buf.count("differences_masked_by_C14_dangling_abort", 1);
+            buf.direct(&format!("{}:{}", it.cls, v), true, "", "", Value::Null);
+            continue;
+        }
+        let key = format!("{}:{}:{:016x}", v, it.dialect, h64(&it.sql));
+        let inp = if same { Value::Null } else { json!({"dialect": it.dialect, "sql": it.sql, "name": it.name, "variant": v, "baseline": base, "observed": o}) };
+        buf.direct(&format!("{}:{}", it.cls, v), same, &key, &format!("parse result with {} differs from the baseline (shortcuts on, shared dialect)", v), inp);
+    }
+}
+
+// ------------------------------------------------------------------------------------ large inputs
+/// A big input (tens of thousands of tokens): parsed with the cache on and off only, each parse on
+/// its own thread.  `recipe` rebuilds `sql` in a replay (the text itself is too big for the reports).
+#[derive(Clone)]
+struct Big {
+    dialect: String,
+    cls: String,
+    name: String,
+    recipe: Value,
+    sql: String,
+}
+
+/// The large shapes.  `n` is the number of repeated units (statements, rows, list elements, nesting levels).
+fn large_sql(shape: &str, n: usize) -> String {
+    let mut s = String::new();
+    match shape {
+        // many short independent statements: every statement adds fresh memo locations
+        "many-statements" => {
+            for i in 0..n {
+                let _ = writeln!(s, "SELECT a{}, b FROM t{} WHERE x = {};", i % 7, i % 5, i);
+            }
+        }
+        // one INSERT with a very long VALUES list
+        "values-list" => {
+            s.push_str("INSERT INTO t (a, b) VALUES ");
+            for i in 0..n {
+                if i > 0 {
+                    s.push_str(", ");
+                }
+                let _ = write!(s, "({}, 'v{}')", i, i % 9);
+            }
+            s.push_str(";\n");
+        }
+        // one SELECT whose FROM clause is a VALUES list inside a scalar sub-query (bracketed slice + terminator-trimmed slice)
+        "values-subquery" => {
+            s.push_str("SELECT a FROM t WHERE a = (SELECT max(c1) FROM (VALUES ");
+            for i in 0..n {
+                if i > 0 {
+                    s.push_str(", ");
+                }
+                let _ = write!(s, "({})", i);
+            }
+            s.push_str(") AS v (c1));\n");
+        }
+        // one very long IN list
+        "in-list" => {
+            s.push_str("SELECT a FROM t WHERE b IN (");
+            for i in 0..n {
+                if i > 0 {
+                    s.push_str(", ");
+                }
+                let _ = write!(s, "{}", i);
+            }
+            s.push_str(") AND c = 1;\n");
+        }
+        // one very long select list
+        "select-list" => {
+            s.push_str("SELECT ");
+            for i in 0..n {
+                if i > 0 {
+                    s.push_str(", ");
+                }
+                let _ = write!(s, "c{} AS d{}", i, i);
+            }
+            s.push_str(" FROM t;\n");
+        }
+        // statements spread over more than 2^16 lines (line numbers are part of the memo location)
+        "many-lines" => {
+            for i in 0..n {
+                let _ = writeln!(s, "SELECT\n\na{}\n,\n\nb\nFROM\n\nt{}\n;", i % 7, i % 5);
+            }
+        }
+        // one select list spread over more than 2^16 lines
+        "select-list-lines" => {
+            s.push_str("SELECT\n");
+            for i in 0..n {
+                if i > 0 {
+                    s.push_str(",\n\n");
+                }
+                let _ = write!(s, "c{}", i % 100);
+            }
+            s.push_str("\nFROM t;\n");
+        }
+        // many statements, each with narrow nesting (brackets, sub-queries, CASE)
+        "nested-statements" => {
+            for i in 0..n {
+                let _ = writeln!(s, "SELECT (((a + {})) * (SELECT max(b) FROM (SELECT b FROM u WHERE u.k = {}) AS w)), CASE WHEN a > {} THEN (1) ELSE ((2)) END FROM t;", i, i, i);
+            }
+        }
+        _ => {}
+    }
+    s
+}
+fn lex_count(d: &Dialect, sql: &str) -> usize {
+    use sqruff_lib_core::parser::lexer::StringOrTemplate;
+    use sqruff_lib_core::parser::segments::base::Tables;
+    let tables = Tables::default();
+    catch(|| d.lexer().lex(&tables, StringOrTemplate::String(sql)).map(|(t, _)| t.len()).unwrap_or(0)).unwrap_or(0)
+}
+
+/// Tokens of `sql` as the parser sees them: (raw, is_code).
+fn lex_raws(d: &Dialect, sql: &str) -> Vec<(String, bool)> {
+    use sqruff_lib_core::parser::lexer::StringOrTemplate;
+    use sqruff_lib_core::parser::segments::base::Tables;
+    let tables = Tables::default();
+    catch(|| d.lexer().lex(&tables, StringOrTemplate::String(sql)).map(|(t, _)| t.iter().map(|s| (s.raw().to_string(), s.is_code())).collect::<Vec<_>>()).unwrap_or_default()).unwrap_or_default()
+}
+
+/// A place where the answer of one matcher at one token depends on the length of the slice it is
+/// matched against (`short` < `long` are the two slice lengths): the component of the memo location
+/// that tells them apart is the slice length alone.
+#[derive(Clone, Debug)]
+struct Site {
+    idx: u32,
+    short: u32,
+    long: u32,
+    key: u32,
+    res_short: (u32, bool, u32),
+    res_long: (u32, bool, u32),
+}
+
+fn slice_sites(d: &Dialect, sql: &str) -> Vec<Site> {
+    verif_switches::set(false, false);
+    verif_switches::rec_start(30000);
+    let _ = parse_with(d, sql);
+    let frames = verif_switches::rec_take();
+    let mut by: BTreeMap<(u32, u32), BTreeMap<u32, (u32, bool, u32)>> = BTreeMap::new();
+    for f in &frames {
+        for (k, _, r) in &f.evals {
+            by.entry((f.idx, *k)).or_default().insert(f.max_idx, *r);
+        }
+    }
+    let mut out = vec![];
+    for ((idx, key), m) in by {
+        let v: Vec<(u32, (u32, bool, u32))> = m.into_iter().collect();
+        for w in v.windows(2) {
+            if w[0].1 != w[1].1 {
+                out.push(Site { idx, short: w[0].0, long: w[1].0, key, res_short: w[0].1, res_long: w[1].1 });
+            }
+        }
+    }
+    out
+}
+
+/// `sql` with padding tokens (block comments) inserted between the two slice ends of `site` so that
+/// they are exactly `dist` tokens apart.  None when they are already further apart or there is no
+/// place for the padding.
+fn straddle(d: &Dialect, sql: &str, site: &Site, dist: u32) -> Option<String> {
+    let toks = lex_raws(d, sql);
+    if toks.iter().map(|t| t.0.len()).sum::<usize>() != sql.len() || site.long as usize > toks.len() {
+        return None;
+    }
+    let gap = site.long - site.short;
+    if gap >= dist {
+        return None;
+    }
+    let at = ((site.short as usize + 1)..=(site.long as usize).min(toks.len() - 1)).find(|&i| toks[i].1)?;
+    let off: usize = toks[..at].iter().map(|t| t.0.len()).sum();
+    let mut s = String::with_capacity(sql.len() + 4 * (dist - gap) as usize);
+    s.push_str(&sql[..off]);
+    for _ in 0..(dist - gap) {
+        s.push_str("/**/");
+    }
+    s.push_str(&sql[off..]);
+    Some(s)
+}
+
+/// `sql` followed by trailing line breaks so that it has exactly `tokens` tokens (each line break
+/// is one token, the end-of-file marker is counted).
+fn pad_to_tokens(d: &Dialect, mut sql: String, tokens: usize) -> String {
+    let have = lex_count(d, &sql);
+    for _ in have..tokens {
+        sql.push('\n');
+    }
+    sql
+}
+
+fn build_recipe(d: &Dialect, r: &Value) -> Option<String> {
+    match r["kind"].as_str()? {
+        "shape" => {
+            let sql = large_sql(r["shape"].as_str()?, r["n"].as_u64()? as usize);
+            Some(match r["pad_to_tokens"].as_u64() {
+                Some(t) => pad_to_tokens(d, sql, t as usize),
+                None => sql,
+            })
+        }
+        "straddle" => {
+            let g = |k: &str| r[k].as_u64().map(|x| x as u32);
+            let site = Site { idx: g("idx")?, short: g("short")?, long: g("long")?, key: g("key").unwrap_or(0), res_short: (0, false, 0), res_long: (0, false, 0) };
+            straddle(d, r["base_sql"].as_str()?, &site, g("dist")?)
+        }
+        _ => None,
+    }
+}
+
+fn shape_big(sh: &Shared, dialect: &str, shape: &str, n: usize, pad_to: Option<usize>) -> Big {
+    let mut recipe = json!({"kind": "shape", "shape": shape, "n": n});
+    if let Some(t) = pad_to {
+        recipe["pad_to_tokens"] = json!(t);
+    }
+    let sql = build_recipe(&sh.dialects[dialect], &recipe).unwrap_or_default();
+    let name = match pad_to {
+        Some(t) => format!("{}x{}@{}tokens", shape, n, t),
+        None => format!("{}x{}", shape, n),
+    };
+    Big { dialect: dialect.to_string(), cls: format!("large:{}", shape), name, recipe, sql }
+}
+
+/// The generated large inputs: every shape beyond 2^16 tokens and (for the statement lists) beyond
+/// 2^16 memo locations; thorough adds sizes that sit exactly on / next to 2^16 tokens and twice that.
+fn big_shapes(sh: &Shared, args: &Args) -> Vec<Big> {
+    let mut v = vec![
+        shape_big(sh, "ansi", "many-statements", 7000, None),
+        shape_big(sh, "postgres", "values-list", 9000, None),
+        shape_big(sh, "bigquery", "select-list", 10000, None),
+        shape_big(sh, "snowflake", "nested-statements", 1700, None),
+        shape_big(sh, "mysql", "in-list", 22000, None),
+        shape_big(sh, "sparksql", "values-subquery", 13200, None),
+        shape_big(sh, "duckdb", "many-lines", 6700, None),
+    ];
+    if args.thorough() {
+        for (i, (shape, unit)) in [("many-statements", 20usize), ("values-list", 8), ("select-list", 7), ("nested-statements", 83), ("in-list", 3), ("values-subquery", 5), ("many-lines", 17), ("select-list-lines", 4)].iter().enumerate() {
+            for (j, t) in [65535usize, 65536, 65537, 131072].iter().enumerate() {
+                let d = DIALECTS[(i * 4 + j) % DIALECTS.len()];
+                let n = (t - 40) / unit;
+                v.push(shape_big(sh, d, shape, n, Some(*t)));
+            }
+            // well beyond 2^17 tokens
+            let d = DIALECTS[(i * 5 + 3) % DIALECTS.len()];
+            v.push(shape_big(sh, d, shape, 200_000 / unit, None));
+        }
+    }
+    v
+}
+
+/// position and surroundings of the first difference between two serialised trees
+fn first_diff(a: &str, b: &str) -> Value {
+    let n = a.bytes().zip(b.bytes()).take_while(|(x, y)| x == y).count();
+    let cut = |s: &str| {
+        let mut lo = n.saturating_sub(120);
+        while !s.is_char_boundary(lo) {
+            lo -= 1;
+        }
+        let mut hi = (n + 200).min(s.len());
+        while !s.is_char_boundary(hi) {
+            hi -= 1;
+        }
+        s[lo..hi].to_string()
+    };
+    json!({"offset_in_serialised_tree": n, "baseline_tree_there": cut(a), "observed_tree_there": cut(b), "baseline_tree_bytes": a.len(), "observed_tree_bytes": b.len()})
+}
+
+fn big_input_json(b: &Big, tokens: usize) -> Value {
+    json!({"dialect": b.dialect, "name": b.name, "recipe": b.recipe, "tokens": tokens, "bytes": b.sql.len(), "sql_head": trunc(&b.sql, 300),
+        "sql_tail": b.sql[b.sql.len().saturating_sub(120)..].to_string(),
+        "how_to_rebuild": "sqv c13 --replay-input <this input object> rebuilds the text from `recipe` (or: bin/check C13 --replay <this file>)"})
+}
+
+/// One big input: baseline (cache on, with the audit of location keys) and cache-off, in parallel.
+fn run_big(sh: &Shared, b: &Big, buf: &mut Buf) {
+    let d = &sh.dialects[&b.dialect];
+    let tokens = lex_count(d, &b.sql);
+    let input = big_input_json(b, tokens);
+    let watch = |variant: &str| json!({"dialect": b.dialect, "name": b.name, "variant": variant, "recipe": b.recipe, "tokens": tokens, "sql": trunc(&b.sql, 300)});
+    let (base, audit, off) = std::thread::scope(|sc| {
+        let h1 = std::thread::Builder::new()
+            .stack_size(512 << 20)
+            .spawn_scoped(sc, || {
+                verif_switches::set(false, false);
+                verif_switches::loc_audit_start();
+                watch_set(watch("baseline"));
+                let r = parse_with(d, &b.sql);
+                watch_clear();
+                (r, verif_switches::loc_audit_take())
+            })
+            .unwrap();
+        let h2 = std::thread::Builder::new()
+            .stack_size(512 << 20)
+            .spawn_scoped(sc, || {
+                verif_switches::set(true, false);
+                watch_set(watch("cache-off"));
+                let r = parse_with(d, &b.sql);
+                watch_clear();
+                verif_switches::set(false, false);
+                r
+            })
+            .unwrap();
+        let (r1, a) = h1.join().unwrap();
+        (r1, a, h2.join().unwrap())
+    });
+    let (ob, oo) = (outcome(&base), outcome(&off));
+    buf.count("inputs_big", 1);
+    buf.count(&format!("inputs_{}", b.cls.split(':').next().unwrap_or("big")), 1);
+    if ob.starts_with("tree:") {
+        buf.count("nontrivial_inputs", 1);
+    }
+    if tokens >= 65536 {
+        buf.count("big_inputs_with_at_least_65536_tokens", 1);
+    }
+    if audit.max_locations >= 65536 {
+        buf.count("big_inputs_with_at_least_65536_memo_locations", 1);
+    }
+    if audit.max_cache_entries >= 65536 {
+        buf.count("big_inputs_with_at_least_65536_memo_entries", 1);
+    }
+    buf.lines.push(json!({"t": "stat", "v": {"big_input": b.name, "class": b.cls, "dialect": b.dialect, "tokens": tokens, "longest_match_calls": audit.calls, "memo_locations": audit.max_locations, "memo_entries": audit.max_cache_entries, "longest_slice": audit.max_slice_len, "baseline": trunc(&ob, 40)}}));
+    loc_hyp(buf, &audit, json!({"dialect": b.dialect, "input": b.name, "recipe": b.recipe}));
+    let same = ob == oo;
+    let masked = !same && (ob.starts_with("abort-dangling:") || oo.starts_with("abort-dangling:"));
+    if masked {
+        buf.count("differences_masked_by_C14_dangling_abort", 1);
+        buf.direct(&format!("{}:cache-off", b.cls), true, "", "", Value::Null);
+        return;
+    }
+    let mut inp = input;
+    if !same {
+        inp["variant"] = json!("cache-off");
+        inp["baseline"] = json!(ob);
+        inp["observed"] = json!(oo);
+        inp["first_difference"] = match (&base, &off) {
+            (Ok(a), Ok(b)) => first_diff(a, b),
+            (Err(a), _) => json!({"baseline_parse_did_not_return_a_tree": trunc(a, 400)}),
+            (_, Err(b)) => json!({"cache_off_parse_did_not_return_a_tree": trunc(b, 400)}),
+        };
+        inp["location_key_audit_of_baseline"] = json!({"memo_locations": audit.max_locations, "memo_entries": audit.max_cache_entries, "keys_reused_for_another_location": audit.reused_for_other_location, "keys_not_leading_back_to_their_location": audit.unfaithful, "first": audit.first});
+    }
+    let key = format!("cache-off:{}:{}", b.dialect, b.name);
+    buf.direct(&format!("{}:cache-off", b.cls), same, &key, "parse result with the parse cache off differs from the baseline (shortcuts on) on a big input", inp);
+}
+
+/// Monitor of the hypothesis that a location key identifies (token, slice length) within one parse
+/// (H_mfn reads the memo at (loc_key, cache_key): two locations under one key void it).
+fn loc_hyp(buf: &mut Buf, a: &verif_switches::LocAudit, whereabouts: Value) {
+    let ok = a.reused_for_other_location == 0 && a.unfaithful == 0;
+    let mut ex = whereabouts;
+    ex["longest_match_calls"] = json!(a.calls);
+    ex["keys_reused_for_another_location"] = json!(a.reused_for_other_location);
+    ex["keys_not_leading_back_to_their_location"] = json!(a.unfaithful);
+    ex["first"] = json!(a.first);
+    buf.count("location_keys_audited", a.calls);
+    buf.hyp("H_loc_key_identifies_token_and_slice_length", "blocking", ok, ex);
+}
+
+/// The big inputs, `conc` at a time, every parse on its own thread (they run beside the worker pool).
+fn run_bigs(sh: &Shared, bigs: &[Big], conc: usize) -> Vec<Buf> {
+    let next = std::sync::atomic::AtomicUsize::new(0);
+    let res: std::sync::Mutex<Vec<Option<Buf>>> = std::sync::Mutex::new(bigs.iter().map(|_| None).collect());
+    std::thread::scope(|sc| {
+        for _ in 0..conc.min(bigs.len()) {
+            sc.spawn(|| {
+                loop {
+                    let i = next.fetch_add(1, std::sync::atomic::Ordering::SeqCst);
+                    if i >= bigs.len() {
+                        break;
+                    }
+                    let mut buf = Buf::default();
+                    run_big(sh, &bigs[i], &mut buf);
+                    res.lock().unwrap()[i] = Some(buf);
+                }
+            });
+        }
+    });
+    res.into_inner().unwrap().into_iter().flatten().collect()
+}
+
+/// Slice-length straddles: for every place of every input where a matcher's answer depends on the
+/// slice length alone (see `Site`), variants of the input in which the two slice lengths are exactly
+/// 2^8 / 2^16 tokens apart.  Returns (small variants for the ordinary 6-way comparison, big ones).
+fn straddles(sh: &Shared, items: &[Item], args: &Args, out: &mut Out) -> (Vec<Item>, Vec<Big>) {
+    let found: std::sync::Mutex<Vec<(usize, Vec<Site>)>> = std::sync::Mutex::new(vec![]);
+    let idx: Vec<usize> = (0..items.len()).collect();
+    par_run(out, &idx, || (), |_, &i, buf| {
+        let it = &items[i];
+        watch_set(json!({"dialect": it.dialect, "sql": it.sql, "name": it.name, "variant": "site-scan"}));
+        let s = slice_sites(&sh.dialects[&it.dialect], &it.sql);
+        watch_clear();
+        buf.count("inputs_scanned_for_slice_length_sites", 1);
+        if !s.is_empty() {
+            buf.count("inputs_with_slice_length_sites", 1);
+            found.lock().unwrap().push((i, s));
+        }
+    });
+    let mut found = found.into_inner().unwrap();
+    found.sort_by_key(|f| (items[f.0].sql.len(), f.0));
+    let (mut small, mut big) = (vec![], vec![]);
+    let mut seen: BTreeSet<(String, u64, u32, u32, u32)> = BTreeSet::new();
+    let max_big = if args.thorough() { 24 } else { 8 };
+    let max_small = if args.thorough() { 400 } else { 60 };
+    let mut buf = Buf::default();
+    for (i, sites) in found {
+        let it = &items[i];
+        for st in sites {
+            // one variant per (input, token, pair of slice lengths): the matcher does not matter
+            if !seen.insert((it.dialect.clone(), h64(&it.sql), st.idx, st.short, st.long)) {
+                continue;
+            }
+            buf.count("slice_length_sites", 1);
+            let d = &sh.dialects[&it.dialect];
+            let recipe = |dist: u32| json!({"kind": "straddle", "base_sql": it.sql, "base_name": it.name, "idx": st.idx, "short": st.short, "long": st.long, "key": st.key, "dist": dist,
+                "meaning": format!("matcher {} at token {} answers {:?} on the slice of {} tokens and {:?} on the slice of {} tokens; block comments are inserted so that the two slices are {} tokens apart", st.key, st.idx, st.res_short, st.short, st.res_long, st.long, dist)});
+            if small.len() < max_small {
+                for dist in [255u32, 256, 257] {
+                    if let Some(sql) = straddle(d, &it.sql, &st, dist) {
+                        small.push(Item { dialect: it.dialect.clone(), cls: "straddle-256", name: format!("{}@{}:{}-{}+{}", it.name, st.idx, st.short, st.long, dist), sql });
+                    }
+                }
+            }
+            if big.len() < max_big {
+                if let Some(sql) = straddle(d, &it.sql, &st, 65536) {
+                    big.push(Big { dialect: it.dialect.clone(), cls: "straddle-65536".into(), name: format!("{}@{}:{}-{}+65536", it.name, st.idx, st.short, st.long), recipe: recipe(65536), sql });
+                }
+            } else {
+                buf.count("slice_length_sites_without_65536_variant(cap)", 1);
+            }
+        }
+    }
+    out.absorb(buf);
+    (small, big)
 }
 
 // ------------------------------------------------------------------------------------ correspondence: recorded longest_match calls
@@ -331,10 +847,13 @@ fn record_item(sh: &Shared, it: &Item, per_parse: usize, buf: &mut Buf) {
     // compared with what matching the same option at the same place returns now
     verif_switches::set(false, false);
     verif_switches::audit_start();
+    verif_switches::loc_audit_start();
     watch_set(json!({"dialect": it.dialect, "sql": it.sql, "name": it.name, "variant": "audit"}));
     let _ = parse_with(shared, &it.sql);
     watch_clear();
     let (hits, bad, ex) = verif_switches::audit_take();
+    let la = verif_switches::loc_audit_take();
+    loc_hyp(buf, &la, json!({"dialect": it.dialect, "sql": trunc(&it.sql, 400)}));
     buf.count("cache_hits_audited", hits);
     buf.count("cache_hits_differing_from_recomputation", bad);
     buf.hyp("H_mfn_cache_hit_equals_recomputation(Inv)", "diagnostic", bad == 0, json!({"dialect": it.dialect, "sql": trunc(&it.sql, 400), "hits": hits, "differing": bad, "first": ex}));
@@ -540,8 +1059,19 @@ pub fn main(args: &Args) {
 
     if let Some(path) = args.flag("--replay-input") {
         let v: Value = serde_json::from_str(&std::fs::read_to_string(path).unwrap()).unwrap();
-        let it = Item { dialect: v["dialect"].as_str().unwrap_or("ansi").to_string(), cls: "replay", name: "replay".into(), sql: v["sql"].as_str().unwrap_or("").to_string() };
+        let dname = v["dialect"].as_str().unwrap_or("ansi").to_string();
         let mut buf = Buf::default();
+        if v["recipe"].is_object() {
+            // a big input: rebuilt from its recipe
+            watchdog(args.out.clone(), 600);
+            let sql = build_recipe(&sh.dialects[&dname], &v["recipe"]).unwrap_or_default();
+            let b = Big { dialect: dname, cls: "replay".into(), name: v["name"].as_str().unwrap_or("replay").to_string(), recipe: v["recipe"].clone(), sql };
+            run_big(&sh, &b, &mut buf);
+            out.absorb(buf);
+            out.finish();
+            return;
+        }
+        let it = Item { dialect: dname, cls: "replay", name: "replay".into(), sql: v["sql"].as_str().unwrap_or("").to_string() };
         run_item(&sh, &it, &mut buf);
         record_item(&sh, &it, 40, &mut buf);
         out.absorb(buf);
@@ -556,8 +1086,36 @@ pub fn main(args: &Args) {
     static_keys(&mut out, &gen_dir);
     watchdog(args.out.clone(), if args.thorough() { 600 } else { 240 });
 
-    let items = gen_items(args);
-    par_run(&mut out, &items, || (), |_, it, buf| run_item(&sh, it, buf));
+    let mut items = gen_items(args);
+    // slice-length straddles derived from the inputs; big inputs (generated shapes + 2^16 straddles)
+    let (small, big_straddles) = straddles(&sh, &items, args, &mut out);
+    items.extend(small);
+    let mut bigs = big_shapes(&sh, args);
+    bigs.extend(big_straddles);
+    // every fixture under every other dialect, light comparison
+    let max_len = if args.thorough() { 20000 } else { 6000 };
+    let mut cross_all: Vec<Item> = vec![];
+    for f in corpus() {
+        if f.text.len() > max_len {
+            continue;
+        }
+        for d in DIALECTS {
+            if d != f.dialect {
+                cross_all.push(Item { dialect: d.to_string(), cls: "cross-dialect-all", name: f.name.clone(), sql: f.text.clone() });
+            }
+        }
+    }
+    let big_bufs = std::thread::scope(|sc| {
+        let (sh, bigs) = (&sh, &bigs);
+        let conc = if args.thorough() { 6 } else { 12 };
+        let h = sc.spawn(move || run_bigs(sh, bigs, conc));
+        par_run(&mut out, &items, || (), |_, it, buf| run_item(sh, it, buf));
+        par_run(&mut out, &cross_all, || (), |_, it, buf| run_item_light(sh, it, buf));
+        h.join().unwrap()
+    });
+    for b in big_bufs {
+        out.absorb(b);
+    }
 
     // correspondence: recorded longest_match calls of a sample of the inputs
     let step = if args.thorough() { 6 } else { 12 };
